@@ -23,6 +23,9 @@ func genTravTree(r *rand.Rand, depth int) V {
 	if r.Intn(4) == 0 {
 		c.Opt |= fFwd
 	}
+	if r.Intn(5) == 0 {
+		c.Opt |= fNNest // set after the content is in place: the option concerns Push, not Traverse
+	}
 	if r.Intn(6) == 0 {
 		c.Vpf = 1 + r.Intn(2) // a validity policy (2 rejects): Index does not consult it, so neither may Traverse
 	}
